@@ -140,6 +140,7 @@ def result_shape(S):
     else:
         real = PathVal("posix", fresh("str", "real_anchor"), models_path.fresh_seq("real"))
     real.resolved_for = S.vars["connection"].slots["user"].fut.value
+    real.resolved_phase = getattr(getattr(S.vars["connection"], "session", None), "phase", 1)
     virtual = PathVal("posix", "/", models_path.fresh_seq("virtual"), abs_known=True)
     return (real, virtual)
 
@@ -161,6 +162,7 @@ def _opaque_result(S):
     base = S.vars["connection"].slots["user"].fut.value.fields["base_path"]
     real = PathVal("any", None, None, opaque=z3.Const(f"real!{next(models_path._ctr)}", models_path.OP))
     real.resolved_for = S.vars["connection"].slots["user"].fut.value
+    real.resolved_phase = getattr(getattr(S.vars["connection"], "session", None), "phase", 1)
     virtual = PathVal("any", None, None, opaque=z3.Const(f"virtual!{next(models_path._ctr)}", models_path.OP))
     return (real, virtual)
 
